@@ -1,8 +1,15 @@
 #!/bin/bash
-# builds the extracted reference interpreter: coq/Core/_build/interp
+# builds the extracted reference interpreter: coq/Core/_build/interp   (atomic: build aside, then rename)
 set -e
 cd "$(dirname "$0")"
 mkdir -p _build
-cp ocaml/interp.ml ocaml/interp.mli driver.ml _build/
-cd _build
-ocamlfind ocamlopt -O2 -w -a interp.mli interp.ml driver.ml -o interp 2>/dev/null || ocamlfind ocamlopt -w -a interp.mli interp.ml driver.ml -o interp
+if [ -x _build/interp ] && [ _build/interp -nt ocaml/interp.ml ] && [ _build/interp -nt driver.ml ]; then exit 0; fi
+exec 9>_build/.lock
+flock 9
+if [ -x _build/interp ] && [ _build/interp -nt ocaml/interp.ml ] && [ _build/interp -nt driver.ml ]; then exit 0; fi
+T=_build/tmp.$$
+mkdir -p $T
+cp ocaml/interp.ml ocaml/interp.mli driver.ml $T/
+(cd $T && (ocamlfind ocamlopt -O2 -w -a interp.mli interp.ml driver.ml -o interp 2>/dev/null || ocamlfind ocamlopt -w -a interp.mli interp.ml driver.ml -o interp))
+mv -f $T/interp _build/interp
+rm -rf $T
